@@ -333,6 +333,16 @@ func init() {
 		return StrV(psnames.FromUnicode(mustStr(args[0], "names.FromUnicode")))
 	}
 	intrinsics["seehuhn.de/go/postscript/type1/names.IsValid"] = func(e *Exec, args []Value, st string) Value {
-		return Bool(psnames.IsValid(mustStr(args[0], "names.IsValid")))
+		if cs, ok := concStr(args[0]); ok {
+			return Bool(psnames.IsValid(cs))
+		}
+		// symbolic name: interpret the real function
+		if pkg := e.prog.ImportedPackage("seehuhn.de/go/postscript/type1/names"); pkg != nil {
+			if fn := pkg.Func("IsValid"); fn != nil && len(fn.Blocks) > 0 {
+				return e.callFn(fn, args, nil)
+			}
+		}
+		unsup("names.IsValid with symbolic string")
+		return nil
 	}
 }
